@@ -239,6 +239,40 @@ func c04Variants(h *hctx) []timedCase {
 				h.count("c04_fixedconsumed_all_consumed", boolInt(consumedAll))
 			})
 		}(),
+		mk("fixedprefix", 1, 3, 1, cd, func(r *bufRun, gap time.Duration) {
+			// inside one cooldown window: the slowest consumer commits a short prefix AND Puts push the size over max;
+			// the single re-check at the end of the window must apply the forced trim, not just reclaim the prefix
+			r.newConsumer()
+			r.put(2, false)
+			commitN(r, 0, 1)
+			r.put(6, false)
+		}),
+		func() timedCase {
+			// sustained traffic: a consumer that keeps up while values keep arriving with gaps shorter than the cooldown.
+			// Reclamation is throttled (at most one run per cooldown), not postponed by every change: something must have
+			// been reclaimed well before the traffic ends.
+			reclaimedDuring, total, dur := false, 0, time.Duration(0)
+			return mk("sustained", 0, 0, 0, cd, func(r *bufRun, gap time.Duration) {
+				reclaimedDuring, total = false, 0
+				r.newConsumer()
+				start := time.Now()
+				for time.Since(start) < 20*cd && total < 400 {
+					r.put(1, false)
+					total++
+					commitN(r, 0, 1)
+					if time.Since(start) > 4*cd && r.b.Size() < total {
+						reclaimedDuring = true
+					}
+					time.Sleep(cd / 6)
+				}
+				dur = time.Since(start)
+			}, func(r *bufRun, id string, size int) {
+				if !reclaimedDuring && total >= 30 {
+					h.line("MONITOR C04 nothing was reclaimed during %v of continuous traffic by a consumer that keeps up (cooldown %v, %d values, gaps of a sixth of the cooldown): the size stayed equal to everything put (%s)", dur.Round(time.Millisecond), cd, total, id)
+				}
+				h.count("c04_sustained_reclaimed_during_traffic", boolInt(reclaimedDuring))
+			})
+		}(),
 		mk("fixed", 1, 3, 2, cd, func(r *bufRun, gap time.Duration) {
 			r.newConsumer()
 			r.put(2, false)
